@@ -802,7 +802,12 @@ func builtinSprintfFunc(c Call) (ret Object, err error) {
 }
 
 func builtinGlobalsFunc(c Call) (Object, error) {
-	return c.VM().GetGlobals(), nil
+	vm := c.VM()
+	if vm == nil {
+		// Called without a VM e.g. BuiltinFunction.Call() from Go.
+		return Undefined, ErrNotCallable.NewError("globals: VM is required")
+	}
+	return vm.GetGlobals(), nil
 }
 
 func builtinIsErrorFunc(c Call) (ret Object, err error) {
